@@ -33,6 +33,9 @@ func c06ValueShapes(prev, param string) []gen.Expr {
 		&gen.Binary{Op: "==", X: one, Y: two},
 		&gen.Call{Func: "not", Args: []gen.Expr{one}},
 		&gen.Call{Func: "isnull", Args: []gen.Expr{one}},
+		&gen.Binary{Op: "+", X: &gen.Call{Func: "g", Args: []gen.Expr{gen.StrLit("(")}}, Y: one},
+		&gen.Binary{Op: "-", X: &gen.Call{Func: "g", Args: []gen.Expr{gen.StrLit(")]}"), gen.StrLit("{[ (")}}, Y: two},
+		&gen.Binary{Op: "*", X: two, Y: &gen.Call{Func: "g", Args: []gen.Expr{&gen.Lit{Kind: gen.Str, Text: `"a b"`, Value: "a b"}}}},
 	}
 	if prev != "" {
 		out = append(out,
@@ -151,6 +154,19 @@ func c06UseSites() []useSite {
 				return &gen.Binary{Op: "==", X: &gen.Name{Parts: []gen.Ident{{Name: "$left"}, {Name: "na"}}}, Y: n}
 			}),
 			build: func(e string) string { return "L | join kind=inner (R) on " + e },
+			extract: func(st *sqlx.Stmt) ([]sqlx.Expr, error) {
+				if st.Q.Join == nil {
+					return nil, errShape
+				}
+				return []sqlx.Expr{st.Q.Join.On}, nil
+			}},
+		{name: "join-on-iff-condition", pos: "custom", truth: true,
+			tree: w(func(n gen.Expr) gen.Expr {
+				return &gen.Binary{Op: "==", X: &gen.Call{Func: "iff", Args: []gen.Expr{
+					&gen.Binary{Op: ">", X: &gen.Name{Parts: []gen.Ident{{Name: "$right"}, {Name: "nb"}}}, Y: n},
+					&gen.Name{Parts: []gen.Ident{{Name: "$left"}, {Name: "na"}}}, n}}, Y: one}
+			}),
+			build: func(e string) string { return "L | join kind=leftouter (R) on " + e },
 			extract: func(st *sqlx.Stmt) ([]sqlx.Expr, error) {
 				if st.Q.Join == nil {
 					return nil, errShape
@@ -440,7 +456,7 @@ func c06Main(r *run.Runner) {
 				shapes := c06ValueShapes(prev, param)
 				if len(prefix) >= 1 {
 					// deeper levels: signed literal, compound, and the shapes that chain
-					shapes = append([]gen.Expr{shapes[1], shapes[2]}, shapes[10:]...)
+					shapes = append([]gen.Expr{shapes[1], shapes[2], shapes[10]}, shapes[13:]...)
 				}
 				if len(prefix) >= 2 {
 					shapes = shapes[2:]
@@ -483,6 +499,8 @@ func c06Main(r *run.Runner) {
 		"T | project n = 1", "T | extend n = a + 1", "T | summarize n = count() by b", "T | as n | count", "T | join (n) on k",
 		"T | project `n`", "T | sort by `n` asc", "T | render n with (n=1)", "T | join kind=inner (R | as n) on k", "T | where a == 'n'", "T | where m[\"n\"] == 1",
 		"T | where a > 1 | take 3", "T | join (R) on $left.n == $right.n",
+		"T | where `n`[1] == 2", "T | extend x = -`n`, y = `n` * 2", "T | where f(`n`) > 1 and `n` in (1, 2)", "T | sort by `n`[0] asc | take 2",
+		"T | join (R) on `n`", "T | summarize max(`n`) by `n`", "T | top 3 by -`n`", "T | where iff(`n` > 1, `n`, 0) == 1",
 	}
 	letTexts := []string{"let n = 5", "let n = -5", "let n = 1 + 2", "let n = 'x'", "let n = f(1)", "let unused = 1; let n = unused + 1"}
 	type law struct{ with, without, name string }
